@@ -59,6 +59,15 @@ Definition addrsyntax_post_x (s : bytes) (flags : Z) (rc : Z) (addr : option byt
         \/ (rc = 3%Z /\ mailbox_x lweak 3 a)
         \/ (rc = 4%Z /\ mailbox_x lweak 4 a)).
 
+(** AUTH=<xtext>: what the octets behind "AUTH=" must be for xtextlen() to return n >= 0: the first n octets
+    are xtext ([xdecode] succeeds: printable characters except "+" and "=", or "+" and two upper-case hex
+    digits), the next one ends the line or is a blank, and the decoded value -- no NUL in it, at most 320
+    octets (the buffer of xtextlen) -- is empty, "<>" or a mailbox *)
+Definition xtext_value_x (d : bytes) : Prop :=
+  d = [] \/ d = [60; 62]%N \/ mailbox_x lweak 3 d \/ mailbox_x lweak 4 d.
+Definition xtext_accept (s : bytes) (n : Z) : Prop :=
+  exists x tail d, s = x ++ tail /\ n = Z.of_nat (length x) /\ (tail = [] \/ hd 0%N tail = SP)
+    /\ xdecode x = Some d /\ ~ In 0%N d /\ length d <= 320 /\ xtext_value_x d.
 End WithOracle.
 
 (* ------------------------------------------------------------------ IPv4 address literal *)
